@@ -87,7 +87,13 @@ def gen_case(rng, sb):
         gpus = [sorted(rng.sample(range(4), max(1, int(gpr + 0.99)))) for _ in range(ranks)]
     exe_codes = [rng.choice([0, 0, 0, 0, 1, 7, 42]) for _ in range(ranks)]
     sandbox = rng.choice([None, None, None, 'sibling', 'elsewhere', 'deeper'])
-    return {'ranks': ranks, 'args': args, 'env': env, 'pre': pre, 'post': post, 'pre_launch': prel, 'post_launch': postl,
+    # a named environment: its script un-sets what the agent has and the named environment lacks
+    # (RPV_AGENT_VAR) and exports its own values (RPV_NAMED_VAR); the task describes both differently
+    named_env = 'ne1' if rng.random() < 0.2 else None
+    if named_env:
+        env['RPV_AGENT_VAR'] = 'task_a' + gen_str(rng, 3)
+        env['RPV_NAMED_VAR'] = 'task_n' + gen_str(rng, 3)
+    return {'ranks': ranks, 'named_env': named_env, 'args': args, 'env': env, 'pre': pre, 'post': post, 'pre_launch': prel, 'post_launch': postl,
             'codes': sorted(codes.items()), 'exe_codes': exe_codes, 'gpr': gpr, 'gpu_type': gpu_type, 'gpus': gpus,
             'omp': rng.choice([None, None, rng.choice([1, 2, 4])]), 'platform': rng.random() < 0.15,
             # unset / relative to the task sandbox / absolute ('ABS:' is replaced by a scratch directory), independently
@@ -113,6 +119,13 @@ def build(rp, sb, case, uid):
             v = '%s/abs out/%s/%s' % (sb.root, uid, v[4:])
         if v: d[key] = v
     if case['name']:   d['name'] = case['name']
+    if case.get('named_env'):
+        d['named_env'] = case['named_env']
+        os.environ['RPV_AGENT_VAR'] = 'agent'
+        nf = '%s/env/rp_named_env.%s.env' % (sb.psbox, case['named_env'])
+        if not os.path.exists(nf):
+            with open(nf, 'w') as fh:
+                fh.write('PATH=%s\nRPV_NAMED_VAR=named\nRPV_ONLY_NAMED=named\n' % os.environ.get('PATH', '/usr/bin:/bin'))
     sandbox = None
     if case['sandbox'] == 'sibling':   sandbox = sb.psbox + '_data/' + uid
     if case['sandbox'] == 'elsewhere': sandbox = sb.root + '/other place/' + uid if False else sb.root + '/other/' + uid
@@ -127,6 +140,7 @@ def model_ops(sb, case, task, pwd):
     ops = [{'op': 'execline', 'exe': sb.probe, 'args': case['args']}]
     for k, v in case['env'].items():
         ops.append({'op': 'export', 'k': k, 'v': v})
+    ops.append({'op': 'envorder', 'named': bool(case.get('named_env')), 'nenv': len(case['env'])})
     ops.append({'op': 'rpenv', 'gpr16': int(round(case['gpr'] * 16)), 'pwd': pwd, 'sbox': os.path.realpath(task['task_sandbox_path']), 'cw': cw})
     cuda = None
     if case['gpr'] and case['gpu_type'] == 'CUDA':
@@ -150,6 +164,14 @@ def observe(sb, case, task, res, p, launcher, pwd):
     text = p._get_task_env(task, launcher)
     for i, k in enumerate(case['env'].keys()):
         out.append({'text': text if i == 0 else None, 'parsed': [k, envr.get(k)] if envr is not None else 'not-run'})
+    # kinds of the parts of the task environment section, in order (export values may span lines:
+    # exports are counted by the keys of the description)
+    ni, ei = text.find('\n. '), text.find('\nexport ')
+    nexp = ['export'] * len(case['env'])
+    if ni < 0:             kinds = nexp
+    elif ei < 0 or ni < ei: kinds = ['named'] + nexp
+    else:                   kinds = nexp + ['named']
+    out.append(kinds)
     m = re.search(r'^export RP_TASK_SANDBOX="(.*)"$', exec_sh, re.M)
     out.append({'gpr': re.search(r'^export RP_GPUS_PER_RANK=(.*)$', exec_sh, re.M).group(1),
                 'ref': m.group(1) if m else None,
@@ -284,6 +306,8 @@ def monitor(sb, case, task, res, pwd):
 def one(rp, sb, p, case, uid):
     task = build(rp, sb, case, uid)
     launcher = execlib.make_launcher(rp, sb, case['ranks'])
+    if case.get('named_env'):
+        case['_named_path'] = '%s/env/rp_named_env.%s.%s.sh' % (sb.psbox, case['named_env'], launcher.name.lower())
     p._session.rcfg['task_pre_exec'] = ['export PLATFORM_PRE=1'] if case['platform'] else None
     extra = {'PROBE_EXIT_%d' % r: str(c) for r, c in enumerate(case['exe_codes'])}
     res = execlib.run_task(rp, sb, p, task, launcher, env_extra=extra)
@@ -360,6 +384,8 @@ def run(ctx):
             pending['lines'].append(m['line'])
             if len(pending['lines']) == len(case['env']):
                 want = '\n# task env settings\n' + ''.join(l + '\n' for l in pending['lines'])
+                if case.get('named_env'):
+                    want = '\n# named environment\n. %s\n' % case['_named_path'] + want
                 if want != pending['text']:
                     ok = False
                     r = {'text': pending['text'], 'parsed': r['parsed']}; m = {'text': want, 'parsed': m['parsed']}
